@@ -90,6 +90,10 @@ impl Input {
 pub struct Sc {
     pub input: Input,
     pub transport: Transport,
+    /// C14, generated files only: the consumer takes this many records with next() and then hands the reader
+    /// to a consuming adaptor (1 = for_each, 2 = collect, 3 = count, 4 = last) instead of looping on next().
+    #[serde(default)]
+    pub consume: Option<(u32, u8)>,
 }
 
 // --- what the reader returned, in a format-independent shape --------------------------------------
@@ -131,12 +135,47 @@ type Item = Option<Result<GotRec, String>>;
 /// A reader under test behind one interface.
 trait Driver {
     fn next_item(&mut self) -> Item;
+    /// Hand the reader itself (not a `&mut` to it) to a consuming adaptor.
+    fn consume(self: Box<Self>, style: u8) -> Consumed;
+}
+
+enum Consumed {
+    Items(Vec<Result<GotRec, String>>),
+    Count(usize),
+    Last(Option<Result<GotRec, String>>),
+}
+
+fn consume_iter<I: Iterator, F: Fn(I::Item) -> Result<GotRec, String>>(it: I, style: u8, conv: F) -> Consumed {
+    match style {
+        1 => {
+            let mut v = Vec::new();
+            it.for_each(|r| v.push(conv(r)));
+            Consumed::Items(v)
+        }
+        2 => Consumed::Items(it.collect::<Vec<_>>().into_iter().map(conv).collect()),
+        3 => Consumed::Count(it.count()),
+        _ => Consumed::Last(it.last().map(conv)),
+    }
 }
 
 struct JasparD<B: std::io::BufRead>(lightmotif_io::jaspar::Reader<B>);
 impl<B: std::io::BufRead> Driver for JasparD<B> {
     fn next_item(&mut self) -> Item {
         self.0.next().map(|r| {
+            r.map(|rec| GotRec {
+                id: Some(rec.id().to_string()),
+                desc: rec.description().map(String::from),
+                rows: rec.matrix().matrix().rows(),
+                u32s: Some(mat_u32::<Dna>(rec.matrix().matrix())),
+                debug_hash: fnv(&format!("{:?}", rec)),
+                ..Default::default()
+            })
+            .map_err(|e| e.to_string())
+        })
+    }
+    fn consume(self: Box<Self>, style: u8) -> Consumed {
+        let me = *self;
+        consume_iter(me.0, style, |r| {
             r.map(|rec| GotRec {
                 id: Some(rec.id().to_string()),
                 desc: rec.description().map(String::from),
@@ -165,6 +204,20 @@ impl<B: std::io::BufRead, A: Alphabet> Driver for Jaspar16D<B, A> {
             .map_err(|e| e.to_string())
         })
     }
+    fn consume(self: Box<Self>, style: u8) -> Consumed {
+        let me = *self;
+        consume_iter(me.0, style, |r| {
+            r.map(|rec| GotRec {
+                id: Some(rec.id().to_string()),
+                desc: rec.description().map(String::from),
+                rows: rec.matrix().matrix().rows(),
+                u32s: Some(mat_u32::<A>(rec.matrix().matrix())),
+                debug_hash: fnv(&format!("{:?}", rec)),
+                ..Default::default()
+            })
+            .map_err(|e| e.to_string())
+        })
+    }
 }
 
 struct UniprobeD<B: std::io::BufRead, A: Alphabet>(lightmotif_io::uniprobe::Reader<B, A>);
@@ -181,12 +234,43 @@ impl<B: std::io::BufRead, A: Alphabet> Driver for UniprobeD<B, A> {
             .map_err(|e| e.to_string())
         })
     }
+    fn consume(self: Box<Self>, style: u8) -> Consumed {
+        let me = *self;
+        consume_iter(me.0, style, |r| {
+            r.map(|rec| GotRec {
+                id: Some(rec.id().to_string()),
+                rows: rec.matrix().matrix().rows(),
+                f32s: Some(mat_f32::<A>(rec.matrix().matrix())),
+                debug_hash: fnv(&format!("{:?}", rec)),
+                ..Default::default()
+            })
+            .map_err(|e| e.to_string())
+        })
+    }
 }
 
 struct TransfacD<B: std::io::BufRead, A: Alphabet>(lightmotif_io::transfac::Reader<B, A>);
 impl<B: std::io::BufRead, A: Alphabet> Driver for TransfacD<B, A> {
     fn next_item(&mut self) -> Item {
         self.0.next().map(|r| {
+            r.map(|rec| GotRec {
+                id: rec.id().map(String::from),
+                desc: rec.description().map(String::from),
+                acc: rec.accession().map(String::from),
+                name: rec.name().map(String::from),
+                rows: rec.data().map(|d| d.rows()).unwrap_or(0),
+                f32s: rec.data().map(|d| mat_f32::<A>(d)),
+                counts: Some(rec.to_counts().map(|c| mat_u32::<A>(c.matrix()))),
+                refs: Some(rec.references().len()),
+                debug_hash: fnv(&format!("{:?}", rec)),
+                ..Default::default()
+            })
+            .map_err(|e| e.to_string())
+        })
+    }
+    fn consume(self: Box<Self>, style: u8) -> Consumed {
+        let me = *self;
+        consume_iter(me.0, style, |r| {
             r.map(|rec| GotRec {
                 id: rec.id().map(String::from),
                 desc: rec.description().map(String::from),
@@ -536,6 +620,10 @@ impl StreamSim {
             ev!(o.trace, "input {:?}", String::from_utf8_lossy(&text[..text.len().min(600)]));
         }
         let n_rec = n_expected.unwrap_or(0);
+        if let (Some((k, style)), Some(m)) = (sc.consume, model) {
+            Self::run_exact_adaptor(sc, o, text.clone(), m, k as usize, style);
+            return;
+        }
         let d = match drive(o, sc, text.clone(), &sc.transport, n_rec + 2, 2) {
             Some(d) => d,
             None => return,
@@ -684,6 +772,160 @@ impl StreamSim {
         }
     }
 
+    /// C14 with a consuming adaptor: `k` records by next(), then for_each / collect / count / last on the
+    /// reader itself. The file is well formed, so every adaptor must see exactly the remaining records.
+    fn run_exact_adaptor(sc: &Sc, o: &mut Outcome, text: Rc<Vec<u8>>, m: &FileModel, k: usize, style: u8) {
+        let format = sc.input.format();
+        let n_rec = m.records.len();
+        let name = match style {
+            1 => "for_each",
+            2 => "collect",
+            3 => "count",
+            _ => "last",
+        };
+        o.probe(match style {
+            1 => "consumed-by-for_each",
+            2 => "consumed-by-collect",
+            3 => "consumed-by-count",
+            _ => "consumed-by-last",
+        });
+        let tags = format!("{},consumer={}", tags_for(sc), name);
+        let (src, stats) = SimSource::new(text.clone(), &sc.transport);
+        let fail = |o: &mut Outcome, p: crate::kit::Panicked, at: &str| {
+            if p.msg.contains(BUDGET_MSG) {
+                o.violate(Violation::new("no-progress", tags.clone(), format!("{}: stream source polled beyond its step budget", at)));
+            } else {
+                o.violate(Violation::new(p.class(), tags.clone(), format!("{}: {}", at, p.msg)));
+            }
+        };
+        let mut drv = match sut(|| open(format, src, &sc.transport)) {
+            Ok(d) => d,
+            Err(p) => {
+                fail(o, p, "Reader::new");
+                fold_stats(o, &stats);
+                return;
+            }
+        };
+        let mut items: Vec<Result<GotRec, String>> = Vec::new();
+        let mut ended = false;
+        for _ in 0..k {
+            match sut(|| drv.next_item()) {
+                Err(p) => {
+                    fail(o, p, &format!("next() #{}", items.len()));
+                    fold_stats(o, &stats);
+                    let _ = sut(move || drop(drv));
+                    return;
+                }
+                Ok(None) => {
+                    ended = true;
+                    break;
+                }
+                Ok(Some(it)) => {
+                    let stop = it.is_err();
+                    items.push(it);
+                    if stop {
+                        ended = true;
+                        break;
+                    }
+                }
+            }
+        }
+        let taken = items.len();
+        let mut count_seen: Option<usize> = None;
+        let mut last_seen: Option<Option<Result<GotRec, String>>> = None;
+        if ended {
+            let _ = sut(move || drop(drv));
+        } else {
+            match sut(move || drv.consume(style)) {
+                Err(p) => {
+                    fail(o, p, &format!("{}() after {} records", name, taken));
+                    fold_stats(o, &stats);
+                    return;
+                }
+                Ok(Consumed::Items(v)) => {
+                    ev!(o.trace, "{} -> {} items", name, v.len());
+                    items.extend(v);
+                }
+                Ok(Consumed::Count(n)) => {
+                    ev!(o.trace, "count -> {}", n);
+                    count_seen = Some(n);
+                }
+                Ok(Consumed::Last(x)) => {
+                    ev!(o.trace, "last -> {:?}", x.as_ref().map(|r| r.as_ref().map(|g| g.id.clone())));
+                    last_seen = Some(x);
+                }
+            }
+        }
+        fold_stats(o, &stats);
+        // the records seen one by one (all of them for for_each / collect)
+        for (i, got) in items.iter().enumerate() {
+            match (m.records.get(i), got) {
+                (None, Ok(r)) => {
+                    o.violate(Violation::new("extra-item", tags.clone(), format!("extra record id={:?} after the {} records of the file", r.id, n_rec)));
+                    return;
+                }
+                (_, Err(e)) => {
+                    o.violate(Violation::new("error-on-wellformed", tags.clone(), format!("record {} of {}: reader returned error: {}", i, n_rec, e)));
+                    return;
+                }
+                (Some(rec), Ok(g)) => {
+                    if let Some((field, detail)) = compare(format, i, rec, g) {
+                        o.violate(Violation::new("record-mismatch", format!("{},field={}", tags, field), detail));
+                        return;
+                    }
+                }
+            }
+        }
+        let owed = n_rec - taken.min(n_rec);
+        match (count_seen, last_seen) {
+            (Some(n), _) => {
+                if n != owed {
+                    o.violate(Violation::new(
+                        if n < owed { "missing-record" } else { "extra-item" },
+                        tags.clone(),
+                        format!("count() after {} next() calls returned {} but {} of the {} records were still to come", taken, n, owed, n_rec),
+                    ));
+                    return;
+                }
+            }
+            (_, Some(x)) => match (x, owed) {
+                (None, 0) => {}
+                (None, _) => {
+                    o.violate(Violation::new("missing-record", tags.clone(), format!("last() after {} next() calls returned None but {} records were still to come", taken, owed)));
+                    return;
+                }
+                (Some(Err(e)), _) => {
+                    o.violate(Violation::new("error-on-wellformed", tags.clone(), format!("last() after {} next() calls returned an error: {}", taken, e)));
+                    return;
+                }
+                (Some(Ok(g)), 0) => {
+                    o.violate(Violation::new("extra-item", tags.clone(), format!("last() returned record id={:?} although all {} records had been taken", g.id, n_rec)));
+                    return;
+                }
+                (Some(Ok(g)), _) => {
+                    if let Some((field, detail)) = compare(format, n_rec - 1, &m.records[n_rec - 1], &g) {
+                        o.violate(Violation::new("record-mismatch", format!("{},field={}", tags, field), format!("last(): {}", detail)));
+                        return;
+                    }
+                }
+            },
+            _ => {
+                if !ended && items.len() < n_rec {
+                    o.violate(Violation::new("missing-record", tags.clone(), format!("{}() ended after {} of {} records ({} taken with next() before)", name, items.len(), n_rec, taken)));
+                    return;
+                }
+                if ended && items.len() < n_rec {
+                    o.violate(Violation::new("missing-record", tags.clone(), format!("reader ended after {} of {} records", items.len(), n_rec)));
+                    return;
+                }
+            }
+        }
+        let _ = o.take_boundaries();
+        if n_rec >= 2 {
+            o.cov = Some(format!("{}|consumer={}|taken={}", format.as_str(), name, taken.min(2)));
+        }
+    }
+
     fn run_robust(sc: &Sc, o: &mut Outcome) {
         let (format, data) = match &sc.input {
             Input::Bytes { format, data, .. } => (*format, Rc::new(data.0.clone())),
@@ -788,7 +1030,10 @@ impl Sim for StreamSim {
                     let model = if idx % 5003 == 5002 { gen::gen_huge_file(r, format) } else { gen::gen_file(r, format, max_records) };
                     let text = model.render();
                     let transport = gen::gen_transport(r, &text, idx / 7);
+                    // one file in six is consumed through an adaptor after a few next() calls
+                    let consume = if idx % 6 == 5 { Some((r.heavy(0, 4) as u32, 1 + r.below(4) as u8)) } else { None };
                     Sc {
+                        consume,
                         input: Input::Model(model),
                         transport,
                     }
@@ -799,6 +1044,7 @@ impl Sim for StreamSim {
                     let text = read_repo_file(path);
                     let transport = gen::gen_transport(r, &text, idx / files.len() as u64);
                     Sc {
+                        consume: None,
                         input: Input::Bundled { format, path: path.to_string() },
                         transport,
                     }
@@ -816,6 +1062,7 @@ impl Sim for StreamSim {
                         transport.cap = r.range(16, 8192);
                     }
                     Sc {
+                        consume: None,
                         input: Input::Bundled { format, path: path.to_string() },
                         transport,
                     }
@@ -836,6 +1083,16 @@ impl Sim for StreamSim {
 
     fn shrink(sc: &Sc) -> Vec<Sc> {
         let mut out = Vec::new();
+        if let Some((k, style)) = sc.consume {
+            let mut s = sc.clone();
+            s.consume = None;
+            out.push(s);
+            if k > 0 {
+                let mut s = sc.clone();
+                s.consume = Some((k / 2, style));
+                out.push(s);
+            }
+        }
         // transport simplifications first
         let t = &sc.transport;
         if !t.is_trivial() {
@@ -979,6 +1236,7 @@ impl Sim for StreamSim {
                 let bytes = &data.0;
                 let n = bytes.len();
                 let mk = |v: Vec<u8>| Sc {
+                    consume: None,
                     input: Input::Bytes {
                         format: *format,
                         data: Blob(v),
@@ -1046,7 +1304,7 @@ impl Sim for StreamSim {
 
     fn rule(prop: &str) -> String {
         match prop {
-            "C14" => "Cases: a grammar-driven generator writes a well-formed file of 1..400 records in one of 7 format/alphabet variants together with its reference model, plus the repository's bundled files; each is delivered under a generated transport (direct BufRead or BufReader of capacity 1..len+1; chunk schedule; structure-aimed cuts at delimiters; EINTR plan). Distinct = distinct tuples (format, capacity class, EINTR yes/no, set of token classes at the chunk boundaries that actually occurred). Non-trivial = the file has >= 2 records and at least one chunk boundary fell strictly inside the data.".to_string(),
+            "C14" => "Cases: a grammar-driven generator writes a well-formed file of 1..400 records in one of 7 format/alphabet variants together with its reference model, plus the repository's bundled files; each is delivered under a generated transport (direct BufRead or BufReader of capacity 1..len+1; chunk schedule; structure-aimed cuts at delimiters; EINTR plan); the consumer loops on next() or, for one generated file in six, takes 0..4 records with next() and hands the reader to a consuming adaptor (for_each, collect, count, last). Distinct = distinct tuples (format, capacity class, EINTR yes/no, set of token classes at the chunk boundaries that actually occurred). Non-trivial = the file has >= 2 records and at least one chunk boundary fell strictly inside the data.".to_string(),
             _ => "Cases: every single fault (EOF at each byte, each single-byte substitution from a 19-value set, each single-byte deletion, each single-byte insertion, a hard I/O error at each offset) over a fixed corpus of valid and edge-case files for the 4 formats, each under 3 delivery schedules, plus seeded multi-fault and arbitrary-byte inputs, large valid files (whole / cut / late mutation), pathological repetition, multi-byte text after an early fault, and keyword splices (whole keywords - the string literals of the parser sources of the tree under test plus keywords of the formats as found in the wild - replacing a word of a line, in a cloned line, or starting a new line followed by the tail of another line or by as many small numbers as a neighbouring row has fields; numbers replaced by boundary labels). Distinct = distinct tuples (format family, number of records returned (capped at 3), how the iteration ended: end / parse error / invalid data / utf8 / io, fault kind). Non-trivial = the reader was constructed and driven to its first error or end of input (every run).".to_string(),
         }
     }
